@@ -831,6 +831,12 @@ class Printer:
                     e = ast.Compare(left=e.left, ops=[flip()], comparators=e.comparators)
                     pol = not pol
                     continue
+                # type(x) == str  ->  isinstance(x, str)   (no str subclasses in this code base: parser tokens are str or ParseResults)
+                if isinstance(op, ast.Eq):
+                    for a_, b_ in ((e.left, e.comparators[0]), (e.comparators[0], e.left)):
+                        if isinstance(a_, ast.Call) and isinstance(a_.func, ast.Name) and a_.func.id == "type" and len(a_.args) == 1 \
+                                and isinstance(b_, ast.Name) and b_.id == "str":
+                            return ast.Call(func=ast.Name(id="isinstance", ctx=ast.Load()), args=[a_.args[0], b_], keywords=[]), pol
                 # orderings: only `<` survives --  a > b = b < a ;  a >= b = not (a < b) ;  a <= b = not (b < a)
                 if isinstance(op, ast.Gt):
                     e = ast.Compare(left=e.comparators[0], ops=[ast.Lt()], comparators=[e.left])
@@ -1117,7 +1123,8 @@ class Printer:
         if isinstance(e, ast.Compare):
             if len(e.ops) == 1:
                 a, pol = self.atom(e)
-                assert isinstance(a, ast.Compare)
+                if not isinstance(a, ast.Compare):
+                    return sh(a) if pol else f"not({sh(a)})"
                 op = type(a.ops[0]).__name__
                 l, r = sh(a.left), sh(a.comparators[0])
                 if op in ("Eq", "Is") and r < l:
